@@ -120,6 +120,10 @@ func Render(t J) string { return RenderWith(t, func(k int) string { return "V" +
 // double_quotes = chars, but a different notation and, in this implementation, a different representation).
 var StringLists bool
 
+// CellLists makes Render write every list cell in functional notation, '.'(H,T): the same term, in this implementation another
+// representation than the bracket notation (a chain of compounds instead of a slice).
+var CellLists bool
+
 func charString(t J) (string, bool) {
 	var sb strings.Builder
 	for {
@@ -170,6 +174,9 @@ func RenderWith(t J, vname func(int) string) string {
 		args := a[2].([]J)
 		f := a[1].(string)
 		if f == "." && len(args) == 2 {
+			if CellLists {
+				return "'.'(" + RenderWith(args[0], vname) + "," + RenderWith(args[1], vname) + ")"
+			}
 			if StringLists {
 				if str, ok := charString(t); ok {
 					return strconv.Quote(str)
